@@ -38,8 +38,9 @@ RULE = ('noise-free images I(x,y)=f(elliptical radius), f in {Sersic n 0.7-4, Ga
         '>=3 samples / >=500 to_polar points; distinct by digest of image + start geometry + keywords')
 # order: the 8 quick shards start at classes 0..7 (expensive ones), the cheap classes come last, so that every class
 # is reached within ~10 cases per shard even on a heavily loaded machine
-CLASSES = ['area', 'free', 'offcentre', 'nearest', 'linear', 'repr', 'fixed', 'truth_start',
-           'geo_step', 'fix_noniter', 'eps_edge', 'controls', 'pa_edge', 'single', 'degenerate', 'sample', 'polar']
+CLASSES = ['area', 'free', 'corner', 'offcentre', 'nearest', 'linear', 'repr', 'fixed',
+           'truth_start', 'geo_step', 'fix_noniter', 'eps_edge', 'controls', 'pa_edge', 'single', 'degenerate', 'sample',
+           'polar']
 assert sorted(CLASSES) == sorted(gen.FIT_CLASSES + ['polar', 'sample', 'single', 'repr', 'degenerate'])
 MUST_REACH = ['photutils.isophote.ellipse:Ellipse.fit_image',
               'photutils.isophote.ellipse:Ellipse.fit_isophote',
@@ -93,14 +94,13 @@ POLAR_TOL = 1e-12       # scalar vs array form
 USABLE_MIN = 0.70
 MAG_CEN, MAG_EPS, MAG_INT = 1e-3, 1e-4, 1e-5   # fit_isophote on a rescaled image vs the original (measured max
                                             # 6.4e-6 px, 1.6e-6, 1.3e-7; float32 pixels: 1.1e-6 px, 8.1e-8, 2.6e-8)
-BIG_VALUES = 1.0e7
 
 
 def plan(tier):
     if tier == 'thorough':
-        return dict(shards=16, cases=17 * 22, timeout=3000, budget_s=840)
+        return dict(shards=16, cases=18 * 20, timeout=3000, budget_s=840)
     # PV_C20_BUDGET: wall budget override for verification runs on an oversubscribed machine (never a verdict)
-    return dict(shards=8, cases=42, timeout=900, budget_s=float(os.environ.get('PV_C20_BUDGET', 70)))
+    return dict(shards=8, cases=45, timeout=900, budget_s=float(os.environ.get('PV_C20_BUDGET', 70)))
 
 
 # ================================================================================================
@@ -178,8 +178,7 @@ def _worst(case, items, what, mech, unit=''):
     if not items:
         return
     r, d = max(items, key=lambda t: t[0])
-    if not mech.get('astep_px_in_geometry') and not mech.get('big_values'):   # (known broken configurations:
-        # keep the measured maxima clean)
+    if not mech.get('astep_px_in_geometry'):      # (known broken configuration: keep the measured maxima clean)
         case.dev(what + '_over_band' + ('_nearest' if mech.get('integrmode') == 'nearest_neighbor' else ''), r)
     case.check(r <= 1.0, what, mech, worst_ratio_to_band=r, **d)
 
@@ -215,8 +214,7 @@ def _recovery(case, spec, isos, mech, m):
         tol = max(3.0 * float(iso.int_err or 0.0), INT_REL * ft)
         items['intens'].append((abs(iso.intens - ft) / tol, dict(d, obs=iso.intens, exp=ft, tol=tol,
                                                                 err=iso.int_err)))
-        if not off_truth and not mech.get('astep_px_in_geometry') and not spec.get('no_recovery') \
-                and not mech.get('big_values'):
+        if not off_truth and not mech.get('astep_px_in_geometry') and not spec.get('no_recovery'):
             mode = mech.get('integrmode', 'bilinear')
             sfx = '_nearest' if mode == 'nearest_neighbor' else ''
             if free['c']:
@@ -287,8 +285,61 @@ def _fixed_exact(case, spec, isos, init, mech):
 # ================================================================================================
 # sampling invariants of one isophote / sample
 # ================================================================================================
+def _frame_accounting(case, shape, sample, mode, mech, complete):
+    """Sample points outside the frame are never counted as data (bilinear / nearest_neighbor walks).
+
+    The walk (phi_0 = initial_polar_angle, phi += min(1/r, 0.5) up to 2 pi + 0.05) is replayed; every walk point is
+    classified by its image coordinates: clearly inside (1 <= x <= nx-2, same in y), clearly outside (beyond the
+    pixel footprint of the border pixels: x < -1 or x > nx), or in the border band where the integrators differ.
+    Stored samples must be walk points, none of them clearly outside; `complete` (no mask, no sigma clipping):
+    every clearly-inside walk point must be stored, total_points must be the length of the walk."""
+    g = sample.geometry
+    ang = np.asarray(sample.values[0], float)
+    ny, nx = shape
+    phis, rads = [], []
+    phi, r = g.initial_polar_angle, g.initial_polar_radius
+    while phi <= 2.0 * math.pi + 0.05:
+        phis.append(phi)
+        rads.append(r)
+        phi += min(1.0 / r, 0.5)
+        r = float(ref.ellipse_polar_radius(g.sma, g.eps, phi))
+    phis, rads = np.array(phis), np.array(rads)
+    xs, ys = ref.from_polar_ref(rads, phis, g.x0, g.y0, g.pa)
+    inside = (xs >= 1) & (xs <= nx - 2) & (ys >= 1) & (ys <= ny - 2)
+    outside = (xs < -1) | (xs > nx) | (ys < -1) | (ys > ny)
+    idx = np.searchsorted(phis, ang - 1e-12)
+    idx = np.clip(idx, 0, len(phis) - 1)
+    on_walk = bool(len(ang) == 0 or np.all(np.abs(phis[idx] - ang) <= 1e-12))
+    case.check(on_walk, 'sample_points_on_walk', mech, n=len(ang), walk=len(phis))
+    if not on_walk:
+        return
+    stored = np.zeros(len(phis), bool)
+    stored[idx] = True
+    side = []
+    if np.any(outside & (xs < -1)):
+        side.append('left')
+    if np.any(outside & (ys < -1)):
+        side.append('bottom')
+    if np.any(outside & (xs > nx)):
+        side.append('right')
+    if np.any(outside & (ys > ny)):
+        side.append('top')
+    mk = dict(mech, leaves_frame='+'.join(side) if side else 'no')
+    nbad = int(np.sum(stored & outside))
+    case.check(nbad == 0, 'outside_points_not_data', mk, n_outside_counted=nbad, n_outside=int(outside.sum()),
+               ndata=len(ang), sma=g.sma)
+    if side:
+        case.note('axis2_path_leaves_frame_' + mk['leaves_frame'], 1)
+        case.note('walk_points_outside_frame_checked', int(outside.sum()))
+    if complete:
+        nmiss = int(np.sum(inside & ~stored))
+        case.check(nmiss == 0, 'inside_points_are_data', mk, n_inside_missing=nmiss, n_inside=int(inside.sum()))
+        case.check(sample.total_points == len(phis), 'total_points_is_walk_length', mk, obs=sample.total_points,
+                   exp=len(phis))
+
+
 def _sample_checks(case, img, sample, mode, mech, spec=None, judge_values=True, astep=None, linear=False,
-                   other_smas=(), val_rtol=1e-10):
+                   other_smas=(), val_rtol=1e-10, complete=True):
     """Invariants of an extracted EllipseSample.  `other_smas`: semimajor axes of the geometries this
     sample's geometry may have been inherited from (neighbouring isophotes / the geometry object)."""
     g = sample.geometry
@@ -337,6 +388,8 @@ def _sample_checks(case, img, sample, mode, mech, spec=None, judge_values=True, 
     case.check(bool(np.all((xs > -1) & (xs < nx) & (ys > -1) & (ys < ny))), 'sample_inside_frame', mech,
                xr=[float(xs.min()), float(xs.max())], yr=[float(ys.min()), float(ys.max())])
     case.close(sample.mean, float(np.mean(inten)), 'sample_mean_is_mean', rtol=1e-12, mech=mech)
+    if mode in ('bilinear', 'nearest_neighbor'):
+        _frame_accounting(case, img.shape, sample, mode, mech, complete)
     if not judge_values:
         return
     inside = (xs >= 0) & (xs <= nx - 1) & (ys >= 0) & (ys <= ny - 1)
@@ -350,6 +403,12 @@ def _sample_checks(case, img, sample, mode, mech, spec=None, judge_values=True, 
         i1, j1 = np.minimum(i0 + 1, nx - 1), np.minimum(j0 + 1, ny - 1)
         four = np.stack([img[j0, i0], img[j0, i1], img[j1, i0], img[j1, i1]])
         case.check(bool(np.all(np.any(four == vi[None, :], axis=0))), 'sample_value_is_neighbour_pixel', mech)
+        # the nearest pixel (pixel centres at integer coordinates); exact .5 ties: either neighbour
+        tie = (np.abs(xi - np.floor(xi) - 0.5) < 1e-9) | (np.abs(yi - np.floor(yi) - 0.5) < 1e-9)
+        ii = np.clip(np.floor(xi + 0.5).astype(int), 0, nx - 1)
+        jj = np.clip(np.floor(yi + 0.5).astype(int), 0, ny - 1)
+        case.check(bool(np.all((img[jj, ii] == vi) | tie)), 'sample_value_nearest_pixel', mech,
+                   n_bad=int(np.sum((img[jj, ii] != vi) & ~tie)))
     elif spec is not None:
         # area modes: mean/median of pixels of a sector between the bounding ellipses (or the bilinear
         # fallback): the value lies between the law at the outer and inner bounding ellipse (+- margin)
@@ -571,6 +630,14 @@ def _model(case, spec, img, isolist, mech, recover_ok):
         return
     case.note('models_built', 1)
     case.check(model.shape == img.shape and bool(np.all(np.isfinite(model))), 'model_shape_finite', mm)
+    if spec.get('axes', {}).get('model_from_slice'):
+        # (x) a list with a history (sliced and re-joined) gives the same model
+        a_ = len(isolist) // 2
+        ok2, model2 = _lib(case, dict(mm, op='build_ellipse_model', list='recombined'), build_ellipse_model,
+                           img.shape, isolist[:a_] + isolist[a_:])
+        if ok2:
+            case.close(model2, model, 'model_from_recombined_list', mech=mm)
+            case.note('axis2_model_from_recombined_list', 1)
     ny, nx = img.shape
     yy, xx = np.mgrid[0:ny, 0:nx]
     rr = ref.elliptical_radius(xx, yy, spec['x0'], spec['y0'], spec['eps'], spec['pa'])
@@ -665,7 +732,11 @@ def _fit_case(case):
     for name, on in (('axis_plain', axes['plain']), ('axis_frame_elongated', axes['frame'] is not None),
                      ('axis_magnitude', axes['magnitude'] is not None), ('axis_image_repr_' + str(kind), kind),
                      ('axis_pa_form_' + str(axes['pa_form']), axes['pa_form']), ('axis_centre_numpy', axes['centre_np']),
-                     ('axis_sma_python_int', axes['sma_int'])):
+                     ('axis_sma_python_int', axes['sma_int']),
+                     ('axis2_centre_on_grid_' + str(axes.get('centre_grid')), axes.get('centre_grid')),
+                     ('axis2_corner_' + str(axes.get('corner')), axes.get('corner')),
+                     ('axis2_geometry_with_history', axes.get('geometry_history')),
+                     ('axis2_frame_parity_%s_%s' % (spec['shape'][0] % 2, spec['shape'][1] % 2), True)):
         if on:
             case.note(name, 1)
     gkw = {}
@@ -692,14 +763,22 @@ def _fit_case(case):
 
     if kind:
         mech['image_repr'] = kind
-    if float(np.max(img)) >= BIG_VALUES:
-        # structural fact: pixel values so large that scipy.leastsq's forward-difference step (1.5e-8 on the
-        # unit start amplitudes of harmonics.py) is below their rounding granularity
-        mech['big_values'] = True
-        case.note('axis_magnitude_big_values', 1)
+    if float(np.max(img)) >= 1.0e7:
+        case.note('axis_magnitude_big_values', 1)      # (judged like any other case since /repo 9396a95)
     if axes['pa_form'] in ('negative', 'above_pi'):
         mech['pa_form'] = axes['pa_form']
     geom = EllipseGeometry(g_x0, g_y0, g_sma, init['eps'], g_pa, **gkw)
+    if axes.get('geometry_history'):
+        # (x) a geometry object that was used before: sector bookkeeping mutated, polar transforms evaluated, copied
+        import copy
+        geom.initialize_sector_geometry(0.3)
+        geom.initialize_sector_geometry(4.0)
+        geom.to_polar(3.0, 4.0)
+        geom.to_polar(np.arange(5.0), np.arange(5.0))
+        geom.bounding_ellipses()
+        geom = copy.deepcopy(geom)
+    if axes.get('corner'):
+        mech['corner'] = axes['corner']
     ell = Ellipse(lib_img, geom)
     ok, isolist = _lib(case, dict(mech, op='fit_image'), ell.fit_image, **kw)
     case.check(_crc(lib_img) == snap, 'image_unchanged', dict(mech, op='fit_image'))
@@ -737,6 +816,9 @@ def _fit_case(case):
     # sampling invariants on a few isophotes (always incl. the first-fitted one)
     nonc = [iso for iso in isolist if iso.sma > 0]
     pick = list(case.rng.choice(len(nonc), size=min(5, len(nonc)), replace=False)) if nonc else []
+    if case.cls == 'corner':
+        pick = list(range(len(nonc)))           # every isophote: the outer ones leave the frame on the near sides
+    complete = not str(kind).startswith('masked') and not kw.get('nclip')
     for k in pick:
         iso = nonc[int(k)]
         mk = dict(mech, stop_code=int(iso.stop_code))
@@ -745,7 +827,8 @@ def _fit_case(case):
                        judge_values=(mode in ('bilinear', 'nearest_neighbor')) or
                                     (not off_truth and iso.stop_code == 0 and iso.sma >= 4.0),
                        astep=kw['step'], linear=spec['linear'],
-                       other_smas=[o.sma for o in nonc if o is not iso] + [init['sma']], val_rtol=val_rtol)
+                       other_smas=[o.sma for o in nonc if o is not iso] + [init['sma']], val_rtol=val_rtol,
+                       complete=complete)
     _model(case, spec, img, isolist, mech,
            recover_ok=not off_truth and mode != 'nearest_neighbor' and not spec.get('no_recovery'))
     case.check(_crc(lib_img) == snap, 'image_unchanged', dict(mech, op='build_ellipse_model'))
@@ -1018,11 +1101,13 @@ def _repr_case(case):
     lib_img, img, sc = gen.apply_repr(img0, kind, spec, float(rng.uniform(0.5, 1.0)), far_radius=0.62 * n_)
     snap = _crc(lib_img)
     masked = kind.startswith('masked')
-    exact = kind != 'float32'
+    exact = kind not in ('float32', 'float16')
+    vtol = {'float32': 5e-6, 'float16': 4e-3}.get(kind, 0.0)       # a few ulp of the pixel dtype
     case.params = dict(shape=spec['shape'], x0=round(spec['x0'], 3), y0=round(spec['y0'], 3), eps=round(spec['eps'], 4),
                        pa_deg=round(math.degrees(spec['pa']), 4), law=spec['kind'], scale=round(spec['scale'], 2),
                        image_repr=kind, magnitude=list(mag), runs=[])
     case.note('axis_image_repr_' + kind, 1)
+    case.note('axis2_dtype_' + kind, 1) if kind in gen.INT_PEAK or kind.startswith('float') else None
     case.note('axis_magnitude_' + mag[0], 1)
     dig = [core.arr_digest(img), kind, mag[1]]
     modes = ['bilinear', 'nearest_neighbor', 'mean', 'median']
@@ -1064,9 +1149,9 @@ def _repr_case(case):
                                [sb.mean, sb.gradient, sb.gradient_error, sb.sector_area], 'repr_sample_stats',
                                mech=mech)
                 else:
-                    case.close(vv[2], vb[2], 'repr_sample_values', rtol=5e-6, mech=mech)
-                    case.close(sv.mean, sb.mean, 'repr_sample_stats', rtol=5e-6, mech=mech)
-                    case.dev('float32_gradient_rel_dev', abs(sv.gradient / sb.gradient - 1.0))
+                    case.close(vv[2], vb[2], 'repr_sample_values', rtol=vtol, mech=mech)
+                    case.close(sv.mean, sb.mean, 'repr_sample_stats', rtol=vtol, mech=mech)
+                    case.dev(kind + '_gradient_rel_dev', abs(sv.gradient / sb.gradient - 1.0))
             # B. magnitude: a power of two scales every value exactly, a decimal factor to rounding
             if not masked and kind not in gen.INT_PEAK:
                 ss = sample_of(img * mag[1])
@@ -1089,6 +1174,12 @@ def _repr_case(case):
             g_ = EllipseGeometry(init['x0'], init['y0'], init['sma'], init['eps'], init['pa'])
             return Ellipse(image, g_).fit_isophote(sma, step=astep, integrmode=mode)
         if masked and mode != 'bilinear' and large:
+            continue
+        if kind == 'float16':
+            # float16 pixels: the whole sample arithmetic runs in half precision; the documentation promises
+            # nothing for the fit -> outcome counted, not judged
+            okh, ih = case.lib(fit_of, lib_img)
+            case.note('float16_fit_' + ('returned' if okh else 'raised_' + type(ih).__name__), 1)
             continue
         ok, iv = _lib(case, dict(mech, op='fit_isophote'), fit_of, lib_img)
         ib = fit_of(img)
@@ -1113,10 +1204,8 @@ def _repr_case(case):
                 im = fit_of(img * mag[1])
                 tm = _iso_tuple(im)
                 mm_ = dict(mech, magnitude=mag[0])
-                big = float(np.max(img)) * mag[1] >= BIG_VALUES
-                if big:
-                    mm_['big_values'] = True
-                case.note('magnitude_fits_big_values' if big else 'magnitude_fits', 1)
+                big = False
+                case.note('magnitude_fits_big_values' if float(np.max(img)) * mag[1] >= 1.0e7 else 'magnitude_fits', 1)
                 if tm[6:8] == tb[6:8]:
                     case.note('magnitude_fit_same_iterations', 1)
                 if im.stop_code == 0 and ib.stop_code == 0:
@@ -1133,10 +1222,11 @@ def _repr_case(case):
                                exp=ib.stop_code, factor=mag[1])
     # A'. every case: all four integrmodes at a large sma on an integer-dtype copy holding bright counts
     #     (sample only: cheap), so that each run compares uint16/int16/int32 with float64 for the area modes
-    ik = ['uint16', 'int16', 'int32'][int(rng.integers(0, 3))]
+    ik = ['uint8', 'int8', 'uint16', 'int16', 'int32', 'uint32', 'int64', 'uint64'][int(rng.integers(0, 8))]
     lib2, mon2, _ = gen.apply_repr(img0, ik, spec, float(rng.uniform(0.6, 1.0)))
     snap2 = _crc(lib2)
     case.note('axis_image_repr_' + ik, 1)
+    case.note('axis2_dtype_' + ik, 1)
     for mode in modes:
         sma = float(rng.uniform(23.0, 0.33 * n_))
         mech = dict(integrmode=mode, image_repr=ik, sma='large')
